@@ -40,16 +40,23 @@ double strtod(const char *s, char **end) {
     if(!ok) { double big = 1e308; big = big * 10.0; errno = ERANGE; if(s[i] == '-') big = 0.0 - big; return big; }
     return v;
 }
-/* libc strtoull, base 10 only (the lazy loader's instance numbers): optional blanks and sign, digits, saturating at ULLONG_MAX with
- * errno = ERANGE; no multiplication by a symbolic value (shift-and-add) */
+/* libc strtoull for base 0 / 8 / 10 / 16 (the lazy loader's instance numbers): optional blanks and sign, radix prefix when base is 0 or 16,
+ * digits of the radix, saturating at ULLONG_MAX with errno = ERANGE; no multiplication by a symbolic value (shifts and adds) */
 unsigned long long strtoull(const char *s, char **end, int base) {
     int i = 0, any = 0, ovf = 0, neg = 0; unsigned long long acc = 0;
-    __CPROVER_assert(base == 10, "strtoull model: base 10 only");
+    __CPROVER_assert(base == 0 || base == 8 || base == 10 || base == 16, "strtoull model: bases 0, 8, 10, 16 only");
     while(s[i] == ' ' || (s[i] >= 9 && s[i] <= 13)) i++;
     if(s[i] == '+' || s[i] == '-') { neg = s[i] == '-'; i++; }
-    while(s[i] >= '0' && s[i] <= '9') {
-        unsigned long long d = (unsigned long long)(s[i] - '0');
-        if(ovf || acc > 1844674407370955161ULL || (acc == 1844674407370955161ULL && d > 5)) ovf = 1; else acc = (acc << 3) + (acc << 1) + d;
+    if((base == 0 || base == 16) && s[i] == '0' && (s[i + 1] == 'x' || s[i + 1] == 'X')
+       && ((s[i + 2] >= '0' && s[i + 2] <= '9') || (s[i + 2] >= 'a' && s[i + 2] <= 'f') || (s[i + 2] >= 'A' && s[i + 2] <= 'F'))) { i += 2; base = 16; }
+    else if(base == 0) base = (s[i] == '0') ? 8 : 10;
+    for(;;) {
+        unsigned long long d; char c = s[i];
+        if(c >= '0' && c <= '9') d = (unsigned long long)(c - '0'); else if(c >= 'a' && c <= 'f') d = (unsigned long long)(c - 'a' + 10); else if(c >= 'A' && c <= 'F') d = (unsigned long long)(c - 'A' + 10); else break;
+        if(d >= (unsigned long long)base) break;
+        if(base == 10) { if(ovf || acc > 1844674407370955161ULL || (acc == 1844674407370955161ULL && d > 5)) ovf = 1; else acc = (acc << 3) + (acc << 1) + d; }
+        else if(base == 8) { if(ovf || (acc >> 61)) ovf = 1; else acc = (acc << 3) + d; }
+        else { if(ovf || (acc >> 60)) ovf = 1; else acc = (acc << 4) + d; }
         i++; any = 1;
     }
     if(end) *end = (char *)(any ? s + i : s);
